@@ -17,7 +17,7 @@ RULE = ("(meta) generated metadata: 1..384 sites selected on the NP1 / NP2 / NP2
         "tables, both encodings give equal geometries, a split child (harness edits the parsed dictionary the way the "
         "converter does, and - for small selections - the metadata NP2Converter itself writes when it splits a tiny recording) == parent restricted to the shank, per ADC the delays are {0,1/c,..,(m-1)/c} all distinct. "
         "(grid) every row 0..1279 x every column x version {1,2,2.4,NPultra}: xy2rc(rc2xy(r,c)) == (r,c) and back, exact; "
-        "enumerated exhaustively. (header) trace_header / split_trace_header for the four dense layouts == reference. "
+        "enumerated exhaustively. (header) trace_header / split_trace_header for the four dense layouts == reference; split_trace_header of every generated NP2.4 geometry (any subset of shanks) == its restriction to each shank present. "
         "Non-trivial = non-monotone channel order with >= 2 shanks or a non-dense selection. Distinct = case hash.")
 EXHAUSTIVE_NOTE = "grid inverses (4 versions x 1280 rows x all columns) and the 4 dense trace headers are enumerated completely"
 ASSUMPTIONS = ["saved-channel subsets are contiguous ranges first..first+n-1 of the acquired channels; metadata lists sites of "
@@ -306,6 +306,20 @@ def _run_meta(case, ctx):
                 _cmp_geom(ctx, "C08.child", rc[0], eth)
                 ctx.check(np.array_equal(rc[1], eorder), "C08.child_index", "child sort index differs")
             ctx.label("child")
+            # the header-level splitter on the geometry of this very selection (any subset of the four shanks, not only
+            # shanks 0..k-1): every shank that is present gives the parent's entries of that shank, in the parent's order
+            npx = sut.neuropixel()
+            for sort in (False, True):
+                th = res[sort][0]
+                eth, _ = calib.geometry(spec, sort=sort)
+                for s_ in shanks:
+                    arg = [int(s_), np.int64(s_), float(s_)][(case["child_pick"] + s_) % 3]
+                    hs = ctx.call("C08.split_trace_header", npx.split_trace_header, th, shank=arg)
+                    if hs is not ctx.CRASH:
+                        sel = eth["shank"] == s_
+                        _cmp_geom(ctx, "C08.split_trace_header", hs, {k: v_[sel] for k, v_ in eth.items()})
+            if shanks != list(range(len(shanks))):
+                ctx.label("split_header_shanks_not_0_to_k")
             # the same through the real splitter: a tiny recording with this metadata is split by NP2Converter and the
             # geometry of every per-shank file it writes must be the parent's restricted to that shank
             if spec.get("nsync", 1) == 1 and not spec.get("first_chan") and len(sites) <= 128 and case["child_pick"] % 2 == 0:
